@@ -100,6 +100,8 @@ def enc(v, models=None):  # noqa: C901, PLR0911, PLR0912
         return ["d", [[enc(k, models), enc(x, models)] for k, x in v.items()]]
     if isinstance(v, IterDatum):
         return ["it", [enc(x, models) for x in v.items]]
+    if isinstance(v, FreshDatum):
+        return enc(v.make(), models)
     if dataclasses.is_dataclass(v) and not isinstance(v, type):
         return ["o", t.__name__, [[f.name, enc(getattr(v, f.name), models)] for f in dataclasses.fields(v)]]
     for cls, fn in ATOM_TEXT.items():
@@ -118,16 +120,26 @@ class IterDatum:
         return (x for x in self.items)
 
 
+class FreshDatum:
+    """A stateful datum (e.g. BytesIO, whose iteration consumes it): a fresh instance per use."""
+
+    def __init__(self, factory):
+        self.factory = factory
+
+    def make(self):
+        return self.factory()
+
+
 def materialise(v):
     """replace IterDatum markers by fresh generators (deep, for containers that can hold them)"""
-    if isinstance(v, IterDatum):
+    if isinstance(v, (IterDatum, FreshDatum)):
         return v.make()
     if type(v) is list:
         return [materialise(x) for x in v]
     if type(v) is tuple:
         return tuple(materialise(x) for x in v)
     if type(v) is dict:
-        return {k: materialise(x) for k, x in v.items()}
+        return {materialise(k): materialise(x) for k, x in v.items()}
     return v
 
 
@@ -272,7 +284,7 @@ def _td(rng):
     return rng.choice([
         datetime.timedelta(0), datetime.timedelta(seconds=1), datetime.timedelta(seconds=-1, microseconds=-500000),
         datetime.timedelta(microseconds=1), datetime.timedelta(seconds=1, microseconds=1),
-        datetime.timedelta(days=-1, microseconds=5), datetime.timedelta(days=365 * 200, microseconds=999999),
+        datetime.timedelta(days=-1, microseconds=5), datetime.timedelta(days=365 * 100, microseconds=999999),
         datetime.timedelta(seconds=rng.randrange(-10 ** 6, 10 ** 6), microseconds=rng.randrange(10 ** 6)),
         datetime.timedelta(seconds=-rng.randrange(1, 10 ** 4), microseconds=-rng.randrange(10 ** 6)),
     ])
@@ -409,7 +421,10 @@ class TypeGen:
         def g(r, k=k, v=v):
             out = {}
             for _ in range(r.choice([0, 1, 2, 3])):
-                out[k.gen(r)] = v.gen(r)
+                key = k.gen(r)
+                if key != key:   # NaN keys are never equal to themselves: not a usable mapping key
+                    continue
+                out[key] = v.gen(r)
             return out
         return Spec(hint=mk(k.hint, v.hint), ty=["dict", k.ty, v.ty], gen=g, kind="dict", children=[k, v], hashable=False,
                     json_safe=k.json_safe and v.json_safe and (k.ty[0] == "scalar" and k.ty[1] in STR_DUMP_SCALARS),
@@ -452,10 +467,47 @@ class TypeGen:
 
         def g(r, ordered=ordered):
             return r.choice(ordered).gen(r)
-        keys = [class_key(type(None) if arg.origin is None else arg.origin) for arg in norm.args]
-        return Spec(hint=hint, ty=["union", [c.ty for c in ordered], keys], gen=g, kind="union", children=ordered,
-                    hashable=all(c.hashable for c in ordered), json_safe=all(c.json_safe for c in ordered),
-                    overlapping=True)  # refined by `union_overlaps`
+        key_classes = [type(None) if arg.origin is None else arg.origin for arg in norm.args]
+        keys = [class_key(k) for k in key_classes]
+        sp = Spec(hint=hint, ty=["union", [c.ty for c in ordered], keys], gen=g, kind="union", children=ordered,
+                  hashable=all(c.hashable for c in ordered), json_safe=all(c.json_safe for c in ordered),
+                  overlapping=True)
+        sp.dump_ambiguous = self.dump_ambiguous(ordered, key_classes)
+        return sp
+
+    def dump_ambiguous(self, ordered, key_classes) -> bool:
+        """documented limitation of the union dumper: it dispatches on the runtime class only, so two cases whose
+        values have the same class (List[int] / List[str], two tuples, tuple vs Sequence) cannot be told apart"""
+        import random
+        r = random.Random(0)
+        table = {}
+        for i, k in enumerate(key_classes):
+            table[k] = i   # a later case replaces an earlier one with the same key
+        for i, c in enumerate(ordered):
+            if c.kind == "literal":
+                continue
+            for _ in range(3):
+                try:
+                    vc = type(c.gen(r))
+                except Exception:  # noqa: BLE001
+                    continue
+                pick = None
+                for parent in vc.__mro__:
+                    if parent in table:
+                        pick = table[parent]
+                        break
+                if pick is None:
+                    for k, j in table.items():
+                        if isinstance(k, type):
+                            try:
+                                if issubclass(vc, k):
+                                    pick = j
+                                    break
+                            except TypeError:
+                                pass
+                if pick != i:
+                    return True
+        return False
 
     def model(self, depth):
         self.n_models += 1
@@ -495,6 +547,13 @@ class TypeGen:
         return spec
 
     def gen(self, depth, hashable=False, no_union=False):
+        while True:
+            sp = self._gen(depth, hashable, no_union)
+            if no_union and sp.kind == "any":
+                continue   # Union[Any, ...] is Any: not a meaningful union case
+            return sp
+
+    def _gen(self, depth, hashable=False, no_union=False):
         r = self.rng.random()
         if depth <= 0 or r < 0.28:
             s = self.scalar()
@@ -884,6 +943,40 @@ def faithful(ev, ty_has_literal_or_hash: bool) -> bool:
     return True
 
 
+def has_iter(ev) -> bool:
+    if not isinstance(ev, list) or not ev:
+        return False
+    if ev[0] == "it":
+        return True
+    if ev[0] in ("l", "t", "S", "F", "q"):
+        return any(has_iter(x) for x in ev[1])
+    if ev[0] == "d":
+        return any(has_iter(a) or has_iter(b) for a, b in ev[1])
+    if ev[0] == "o":
+        return any(has_iter(x) for _, x in ev[2])
+    return False
+
+
+def spec_dump_ambiguous(spec, seen=None) -> bool:
+    seen = seen if seen is not None else set()
+    if id(spec) in seen:
+        return False
+    seen.add(id(spec))
+    if getattr(spec, "dump_ambiguous", False):
+        return True
+    return any(spec_dump_ambiguous(c, seen) for c in spec.children)
+
+
+def spec_has_union(spec, seen=None) -> bool:
+    seen = seen if seen is not None else set()
+    if id(spec) in seen:
+        return False
+    seen.add(id(spec))
+    if spec.kind == "union":
+        return True
+    return any(spec_has_union(c, seen) for c in spec.children)
+
+
 def ty_is_eq_sensitive(ty) -> bool:
     """does the type compare data with `==` (Literal membership, set/dict-key insertion)?"""
     k = ty[0]
@@ -942,8 +1035,11 @@ class Engine:
         return out
 
     def hostile_datum(self):
-        v = self.ctx.rng.choice(self.hostile)()
-        if isinstance(v, types.GeneratorType) or (hasattr(v, "__next__") and not isinstance(v, io.BytesIO)):
+        mk = self.ctx.rng.choice(self.hostile)
+        v = mk()
+        if isinstance(v, io.BytesIO):
+            return FreshDatum(mk)
+        if isinstance(v, types.GeneratorType) or hasattr(v, "__next__"):
             return IterDatum(list(v))
         return v
 
@@ -984,7 +1080,10 @@ class Engine:
                     ctx.dist["skipped:unencodable"] += 1
                     continue
                 rec = LoadRecord(spec=spec, datum=datum, origin=origin, real={}, model={}, value=value)
-                in_model = faithful(enc(datum), ty_is_eq_sensitive(spec.ty))
+                ev0 = enc(datum)
+                # a one-shot iterator is consumed by the first union case that iterates it: a stateful effect the
+                # (pure) model cannot exhibit
+                in_model = faithful(ev0, ty_is_eq_sensitive(spec.ty)) and not (has_iter(ev0) and spec_has_union(spec))
                 if not in_model:
                     ctx.dist["outside-model-universe"] += 1
                 for (m, s) in configs:
